@@ -100,6 +100,19 @@ Theorem C20_gen_anonymous_only_for_empty_key : unattributed_is_anonymous = false
 Proof. reflexivity. Qed.
 Print Assumptions C20_gen_anonymous_only_for_empty_key.
 
+(* `eligible` compares the evaluation instant with valid_from / valid_until as TEXT.
+   That is the chronological comparison only when both sides are in the stored form
+   (fixed-width UTC `YYYY-MM-DDTHH:MM:SS.mmmZ`).  The code as it is now: the stored
+   form is what time::format writes (Millis, Z), normalize and now go through it,
+   every `cx.at = ...` in kql::run assigns time::normalize(..) of the FOR TIME
+   argument (never the raw argument), the context starts at time::now(), and
+   match_belief hands exactly that `at` to project_belief. *)
+Theorem C20_gen_projection_time_is_normalized :
+  for_time_at_normalized = true /\ default_at_is_now = true /\
+  stored_time_is_millis_utc = true /\ belief_evaluated_at_context_time = true.
+Proof. repeat split; reflexivity. Qed.
+Print Assumptions C20_gen_projection_time_is_normalized.
+
 Theorem C20_gen_classify_order :
   classify_order = [Insufficient; Accepted; Rejected; Contested; Uncertain].
 Proof. reflexivity. Qed.
